@@ -1,3 +1,7 @@
 import MpfVerif.DriverLoop
 import MpfVerif.Model.EventBus
-def main : IO UInt32 := MpfVerif.runDriver MpfVerif.EventBus.driverStep MpfVerif.EventBus.init
+import MpfVerif.Gen.EventFacts
+/-! Driver of the C01 model: the event bus with the facts the translator read from `mpf/core/events.py`. -/
+open MpfVerif in
+def main : IO UInt32 :=
+  MpfVerif.runDriver (EventBus.driverStepF Gen.EventFacts.sourceFacts) (EventBus.initF Gen.EventFacts.sourceFacts)
